@@ -144,7 +144,7 @@ def gen_program(rnd):
     plant = None
     if rnd.random() < 0.3:
         plant = rnd.choice(["invisible", "dup", "dup-export", "local-out-of-scope", "own-shadows-export", "dup-export-include", "local-across-units",
-                            "own-shadows-include-export"])
+                            "own-shadows-include-export", "dup-local", "dup-case"])
         f = rnd.choice(files)
         if plant == "invisible":
             others = [n for n in PRIVATE_POOL if not any(n in [l[0] for l in s.labels] or getattr(s, "name", None) == n for s in f.stmts)]
@@ -159,6 +159,23 @@ def gen_program(rnd):
                 name = s.name if s.k == "assign" else s.labels[0][0]
                 new = apm.assign(name, apm.num(uniq.next())) if rnd.random() < 0.5 else apm.label(name)
                 f.stmts.insert(rnd.randrange(len(f.stmts) + 1), new)
+            else:
+                plant = None
+        elif plant == "dup-local":
+            # the same local name twice inside ONE scope (no ordinary label in between)
+            loc = rnd.choice(["1$", "7", "10$", "23"])
+            f.stmts += [apm.label("dlscope"), apm.label(loc), apm.data(".word", ("loc", loc), apm.num(1)), apm.label(loc), apm.data(".word", apm.num(2))]
+        elif plant == "dup-case":
+            # a second definition that differs from the first only in letter case: names are case-insensitive
+            cands = [s2 for s2 in f.stmts if (s2.k == "assign") or (s2.k == "nop" and s2.labels and s2.labels[0][1] != "local")]
+            if cands:
+                s2 = rnd.choice(cands)
+                name = s2.name if s2.k == "assign" else s2.labels[0][0]
+                other = name.upper() if name != name.upper() else name.lower()
+                if other != name:
+                    f.stmts.insert(rnd.randrange(len(f.stmts) + 1), apm.assign(other, apm.num(uniq.next() & 0o77777)) if rnd.random() < 0.7 else apm.label(other))
+                else:
+                    plant = None
             else:
                 plant = None
         elif plant == "dup-export":
